@@ -23,6 +23,19 @@ c = Container(d)
 c.get_folder()
 _ = c.loose_prefix_len  # load the configuration before arming
 instr.snapshot_existing(d)
+
+
+def dump_raw(fname):
+    import store
+    raw = store.raw_state(d, 'sha256')
+    with open(os.path.join(snap, fname), 'w') as f:
+        json.dump({'rows': raw['rows'], 'packs': {str(k): v.hex() for k, v in raw['packs'].items()}, 'loose': {k: v.hex() for k, v in raw['loose'].items()},
+                   'sandbox': {k: v.hex() for k, v in raw['sandbox'].items()}, 'dups': {k: v.hex() for k, v in raw['dups'].items()},
+                   'stored': {k: v.hex() for k, v in raw['stored'].items()}}, f)
+
+
+if payload:
+    dump_raw('pre_raw.json')
 out = {'truth': {k: v.hex() for k, v in truth.items()}, 'targets': sorted(targets)}
 with open(os.path.join(snap, 'truth.json'), 'w') as f:
     json.dump(out, f)
@@ -69,5 +82,7 @@ try:
     c.close()
 except Exception as e:
     out['close_exc'] = str(e)
+if payload:
+    dump_raw('post_raw.json')
 with open(os.path.join(snap, 'out.json'), 'w') as f:
     json.dump(out, f)
